@@ -1,28 +1,185 @@
 /-
   C16 — lists stay memory-safe when shared between threads.
-  (first cut: facts + refutations; the general theorems follow)
+
+  Statement (properties.jsonl): concurrent operations on one list from several
+  threads are linearizable with respect to the shared-vector model, and no
+  operation reads an element through an address obtained before another
+  thread's push relocated or freed the storage.
+
+  Model: RotoV/Model/ListConc.lean (every operation = its atomic steps between
+  schedule points; mutex ownership; buffer generations; element pointers).
+  The lock-scope facts the theorems hang on — does `List::get` /
+  `ffi::list_get` clone the element while the guard of the lookup is alive; is
+  every other `ErasedList` method one critical section; the lock / read /
+  unlock sequence of `concat` and `==` — are regenerated from
+  src/value/list.rs on every run (Generated/C16Facts.lean), so a reverted fix
+  or a moved unlock changes a definition these theorems are checked against.
+
+  All theorems are for ANY number of threads, ANY programs and ANY schedule
+  (induction over the schedule with the invariant `Inv`); nothing is bounded.
 -/
-import RotoV.Model.ListConc
+import RotoV.Lemmas.ListConc
 import RotoV.Generated.C16Facts
 
 namespace RotoV.C16
 open RotoV.ListConc
+
+/-! ### T2 — the premise, checked against the regenerated facts -/
+
+/-- `List::get` and `ffi::list_get` clone the element while the guard under
+    which they looked it up is alive (fails to check when the guard is
+    released before the clone, as on the pinned tree) -/
+theorem facts_guarded : RotoV.Gen.C16.facts = Facts.guarded := by decide
+
+/-- every other `ErasedList` method that touches the buffer is exactly one
+    critical section on `self.0` around one `RawList` call … -/
+theorem methods_single_critical_section :
+    ∀ m ∈ [Method.push, .contains, .containsOwned, .index, .indexOwned, .swap, .len, .capacity, .isEmpty],
+      (RotoV.Gen.C16.methodShapes.lookup m).isSome = true := by decide
+
+/-- … and none of them hands an element pointer out of its critical section
+    (the pointer-returning `ErasedList::get` is gone) -/
+theorem no_method_returns_a_pointer : RotoV.Gen.C16.methodShapes.lookup Method.get = none := by decide
+
+/-- `concat` and `==` take and release their locks in the order the model's
+    steps assume -/
+theorem concat_trace_as_modelled : RotoV.Gen.C16.concatTrace = concatAsModelled := by decide
+theorem eq_trace_as_modelled :
+    RotoV.Gen.C16.eqTrace = eqAsModelled ∧ RotoV.Gen.C16.eqPtrEqFirst = true := by decide
+
+/-! ### T1 — linearizability and pointer safety, for all threads / programs / schedules -/
+
+/-- **No stale pointer is ever read, and no element pointer outlives its
+    critical section** — for every number of threads, every program (including
+    `concat` and `==`) and every schedule of the implementation as it is now:
+    no operation ends in `uaf`, and no step reports a stale use or a pointer
+    parked at a schedule point while its list's mutex is free. -/
+theorem no_stale_pointer_use (lists : List (List Nat)) (progs : List (List Op)) (sched : List Nat)
+    (s' : State) (hrun : run RotoV.Gen.C16.facts (init lists progs) sched = some s') :
+    (∀ d ∈ s'.hist, d.res ≠ Res.uaf) ∧
+    (∀ e ∈ s'.trace, ∀ x ∈ e.2, x ≠ Ev.outside ∧ x ≠ Ev.stale) ∧
+    (∀ t, Res.uaf ∉ (s'.threads t).results) := by
+  have f := run_facts facts_guarded sched _ _ (inv_init lists progs) hrun
+  obtain ⟨ds, hds, hne, _, hres, _⟩ := f.hist
+  obtain ⟨tr, htr, htrg⟩ := f.trace
+  have hh : s'.hist = ds := by simpa [init] using hds
+  have ht : s'.trace = tr := by simpa [init] using htr
+  refine ⟨by rw [hh]; exact hne, by rw [ht]; exact htrg, ?_⟩
+  intro t hmem
+  have := hres t
+  simp only [init, List.nil_append] at this
+  rw [this] at hmem
+  obtain ⟨d, hd, hdr⟩ := List.mem_map.1 hmem
+  exact hne d (List.mem_filter.1 hd).1 hdr
+
+/-- **T1 `atomic_ops_linearizable`.** For every number of threads, all programs
+    without `concat` and every schedule: the completed operations, *in the order
+    in which they completed*, are a sequential execution of the shared-vector
+    specification from the initial lists — same results, same final contents —
+    and every thread's results are exactly its own operations' results in that
+    order. (Completion order respects real-time order: see
+    `completion_order_respects_real_time`.) -/
+theorem atomic_ops_linearizable (lists : List (List Nat)) (progs : List (List Op))
+    (hnc : ∀ p ∈ progs, ∀ op ∈ p, ∀ a b, op ≠ Op.concat a b)
+    (sched : List Nat) (s' : State)
+    (hrun : run RotoV.Gen.C16.facts (init lists progs) sched = some s') :
+    specRun (abs (init lists progs)) (s'.hist.map (·.op)) = (s'.hist.map (·.res), abs s') ∧
+    (∀ t, (s'.threads t).results = (s'.hist.filter (·.tid = t)).map (·.res)) := by
+  have f := run_facts facts_guarded sched _ _ (inv_init lists progs) hrun
+  obtain ⟨ds, hds, _, hmem, hres, hsim⟩ := f.hist
+  have hh : s'.hist = ds := by simpa [init] using hds
+  rw [hh]
+  refine ⟨hsim ?_, ?_⟩
+  · intro d hd a b
+    have hm := hmem d hd
+    simp only [init] at hm
+    by_cases hlt : d.tid < progs.length
+    · have : progs.getD d.tid [] = progs[d.tid] := by simp [List.getD, hlt]
+      rw [this] at hm
+      exact hnc _ (List.getElem_mem hlt) _ hm a b
+    · have : progs.getD d.tid [] = [] := by
+        simp [List.getD, List.getElem?_eq_none (Nat.le_of_not_lt hlt)]
+      rw [this] at hm
+      cases hm
+  · intro t
+    have := hres t
+    simpa [init] using this
+
+/-- The linearization order used by T1 respects real-time order: whatever
+    completed during a prefix of the schedule comes, in the log, before
+    everything that completes later — in particular before every operation
+    that only *starts* later. (Any facts.) -/
+theorem completion_order_respects_real_time (F : Facts) (s s2 : State) (pre post : List Nat)
+    (h : run F s (pre ++ post) = some s2) :
+    ∃ s1 ds, run F s pre = some s1 ∧ run F s1 post = some s2 ∧ s2.hist = s1.hist ++ ds := by
+  rw [run_append] at h
+  cases h1 : run F s pre with
+  | none => simp [h1] at h
+  | some s1 =>
+    simp only [h1, Option.bind_some] at h
+    obtain ⟨ds, hds⟩ := run_hist_grows post s1 s2 h
+    exact ⟨s1, ds, rfl, h, hds⟩
+
+/-! ### T3 — refutations: what the model says about the code that violates the property -/
 
 /-- the final results of a schedule, per thread -/
 def resultsAfter (F : Facts) (lists : List (List Nat)) (progs : List (List Op)) (sched : List Nat) :
     Option (List (List Res)) :=
   (run F (init lists progs) sched).map fun s => resultsOf s progs.length
 
-/-- T3: `List::get` as written on the pinned tree (lookup under the lock,
-    clone after it is released): thread 0 looks element 1 up, thread 1's push
-    reallocates the full buffer, thread 0 clones through the stale pointer. -/
+/-- `List::get` as written on the pinned tree (lookup under the lock, clone
+    after it is released): thread 0 looks element 1 up, thread 1's push
+    reallocates the full buffer, thread 0 clones through the stale pointer.
+    (Repaired by repo commit 1f02828; replayed on the real code before it.) -/
 theorem get_as_written_use_after_free :
     resultsAfter Facts.asWritten [[1, 2, 3, 4]] [[.get 0 1], [.push 0 9]] [0, 1, 0]
       = some [[.uaf], [.unit]] := by decide
 
-/-- T3 for the script-side `ffi::list_get` (lookup, unlock, re-lock, clone) -/
+/-- the same for the script-side `ffi::list_get` (lookup, unlock, re-lock, clone) -/
 theorem ffi_get_as_written_use_after_free :
     resultsAfter Facts.asWritten [[1, 2, 3, 4]] [[.ffiGet 0 1], [.push 0 9]] [0, 1, 0]
       = some [[.uaf], [.unit]] := by decide
+
+/-- `concat` (as it is now: operands copied in two critical sections) is not
+    linearizable — not even sequentially consistent: `l.concat(l)` racing with
+    `l.push(7)` returns `[1,2,3,4,1,2,3,4,7]`, which no sequential order of the
+    two operations produces. Known finding C16-concat-two-critical-sections. -/
+theorem concat_not_linearizable :
+    resultsAfter RotoV.Gen.C16.facts [[1, 2, 3, 4]] [[.push 0 7], [.concat 0 0]] [1, 1, 0, 1]
+      = some [[.unit], [.list [1, 2, 3, 4, 1, 2, 3, 4, 7]]] ∧
+    seqConsistent [[1, 2, 3, 4]] [[.push 0 7], [.concat 0 0]]
+      [[.unit], [.list [1, 2, 3, 4, 1, 2, 3, 4, 7]]] = false := by decide
+
+/-- `==` locks `self` then `other`: `a == b` ‖ `b == a` deadlocks after one
+    step each. Known finding C16-eq-lock-order-deadlock. -/
+theorem eq_opposite_order_deadlock :
+    (run RotoV.Gen.C16.facts (init [[1], [2]] [[.eq 0 1], [.eq 1 0]]) [0, 1]).map
+      (deadlocked RotoV.Gen.C16.facts 2) = some true := by decide
+
+/-! ### non-vacuity -/
+
+/-- `no_stale_pointer_use` / `atomic_ops_linearizable` have runs to talk about:
+    the very schedule that is a use-after-free as written returns the element -/
+example : resultsAfter RotoV.Gen.C16.facts [[1, 2, 3, 4]] [[.get 0 1], [.push 0 9]] [0, 1]
+    = none := by decide   -- the push is blocked while `get` holds the guard
+example : resultsAfter RotoV.Gen.C16.facts [[1, 2, 3, 4]] [[.get 0 1], [.push 0 9]] [0, 0, 1]
+    = some [[.opt (some 2)], [.unit]] := by decide
+example : ∃ s', run RotoV.Gen.C16.facts (init [[1, 2, 3, 4]] [[.ffiGet 0 1], [.push 0 9]]) [1, 0, 0]
+    = some s' := by
+  refine ⟨_, rfl⟩ <;> decide
+/-- the hypothesis of T1 is satisfiable and its conclusion non-trivial: a
+    two-thread program with six operations, none a concat -/
+example : (∀ p ∈ [[Op.get 0 1, .swap 0 0 1, .eq 0 1], [Op.push 0 9, .contains 0 2, .len 1]],
+    ∀ op ∈ p, ∀ a b, op ≠ Op.concat a b) := by
+  intro p hp op hop a b h
+  subst h
+  simp only [List.mem_cons, List.mem_nil_iff, or_false] at hp
+  rcases hp with rfl | rfl <;> simp at hop
+example : seqConsistent [[1, 2, 3, 4]] [[.push 0 7], [.concat 0 0]]
+    [[.unit], [.list [1, 2, 3, 4, 7, 1, 2, 3, 4, 7]]] = true := by decide
+example : Facts.asWritten ≠ Facts.guarded := by decide
+/-- `completion_order_respects_real_time` on a concrete split -/
+example : (run RotoV.Gen.C16.facts (init [[1]] [[.len 0], [.push 0 2]]) ([0] ++ [1])).isSome = true := by
+  decide
 
 end RotoV.C16
